@@ -455,7 +455,9 @@ func wf(n *N) bool {
 	return true
 }
 
-// ---- input classes of the two deviations believed to exist in the pinned tree ----
+// ---- input classes of the two deviations found in the pinned tree ----
+// (F-C04-1/2, trailing ?: before a print redirection: repaired by fix c6e5509, still generated and
+// watched under their own class; F-C04-3, $$x++: deliberate, known finding)
 
 // the rendering of n (not parenthesised at this position) ends with the false branch of an
 // unparenthesised ?:
